@@ -217,7 +217,7 @@ var specs = map[string]*Spec{
 			"A third of the plans is the perturb batch: events tie with call starts/expiries, runtime.Gosched nudges are spliced into machine/prims.go, order is recovered from stamps taken under the mutex; its outcome is the Go runtime's choice, so its replays reproduce with high probability only. " +
 			"The sim flavour runs the same kind of plans (ties included) on a second driver in which machine/prims.go AND the primitive dependency's prims.go are compiled with sync->simsync, time->simtime, channels and select->simchan, go->simrt.Go and a yield before every statement, under the deterministic simrt scheduler: every interleaving between caller, helper goroutine, timer and signallers and every tie is decided by the tape and replays exactly. " +
 			"Non-trivial: at least one concurrent event or more than one call (synctest), more than three context switches (sim); distinct = distinct (plan, observed return times) resp. event-log fingerprints.",
-		Components:   map[string]string{"machine/prims.go WaitTimeout": "real", "github.com/goose-lang/primitive v0.1.0 WaitTimeout": "real", "sync.Cond, sync.Mutex, goroutines": "real", "time (clock, timers)": "stub: testing/synctest fake clock of go1.26.8; goroutine choice inside the bubble is the Go runtime's (events are placed at distinct instants so that it cannot change the outcome)",
+		Components: map[string]string{"machine/prims.go WaitTimeout": "real", "github.com/goose-lang/primitive v0.1.0 WaitTimeout": "real", "sync.Cond, sync.Mutex, goroutines": "real", "time (clock, timers)": "stub: testing/synctest fake clock of go1.26.8; goroutine choice inside the bubble is the Go runtime's (events are placed at distinct instants so that it cannot change the outcome)",
 			"sim flavour": "machine/prims.go and primitive@v0.1.0/prims.go real, statement-level yields; sync, time, channels/select, goroutine scheduling are stubs (simsync, simtime, simchan, simrt)"},
 		Assumptions:  []string{"testing/synctest cannot advance time while a goroutine is blocked on a sync.Mutex, so no task holds the lock across simulated time (lock-hold delays are not explored)", "early (spurious) returns are allowed, as in the GooseLang model; only the upper bounds are checked"},
 		ExpectProbes: []string{"woken_by_signal", "woken_by_broadcast", "timed_out", "aux_assertions"},
